@@ -1,5 +1,6 @@
 import GMGProofs.Props.C10h
 import GMGProofs.Props.C10f
+import GMGProofs.Props.C09c
 /-!
 # Totality and translation invariance for every hierarchy `setup()` builds
 
@@ -43,6 +44,40 @@ theorem concrete_excycle_total_built (H : Hier K) (nr nt : Nat) (maxLevels : Int
   have h2 := (built_sizes H nr nt maxLevels L crit h hb).1
   rw [← hb.shapeR 0 (by omega), ← hb.shapeT 0 (by omega)] at hu ⊢
   exact C10f.concrete_excycle_total H L h2 k nu1 nu2 fgs u f f1 hbc ht1 M hM ht hu m hm hr hr1
+
+/-- `C09c.concrete_start_total` for built hierarchies: the FMG start-up (any FMG cycle kind and count, plain or extrapolated) returns
+    a start vector of the size the coarsening chain gives level 0 -/
+theorem concrete_start_total_built (H : Hier K) (nr nt : Nat) (maxLevels : Int) (L : Nat) (crit : Nat → Nat → Bool)
+    (h : chooseLevels nr nt maxLevels = .ok L) (hb : BuiltBy H nr nt crit L)
+    (fk : Kind) (fi nu1 nu2 : Nat) (ex fgs : Bool)
+    (hbc : ∀ l, l + 1 < L → (lvl H l).op.bc = true) (ht1 : H.tiny 1 = false)
+    (M : SparseLU.CSR K) (hM : DirectCode.assemble H.tables (lvl H (L - 1)).op = some M)
+    (ht : ∀ r, r < M.rows → H.tiny (SparseLU.den ((SparseLU.factorRows M).2.getD r []) r) = false)
+    (m : Mem (Option (Array K)))
+    (hrhs : ∀ l, l < L → (l + 1 < L → 0 < fi) → ∃ f, m (l, Buf.rhs) = some f) :
+    ∃ y, start H ⟨L, nu1, nu2⟩ true fk fi ex fgs m (0, Buf.sol) = some y ∧ y.size = coarsenR 0 nr * coarsenT 0 nt := by
+  have h2 := (built_sizes H nr nt maxLevels L crit h hb).1
+  rw [← hb.shapeR 0 (by omega), ← hb.shapeT 0 (by omega)]
+  exact C09c.concrete_start_total H L h2 fk fi nu1 nu2 ex fgs hbc ht1 M hM ht m hrhs
+
+/-- `C09c.give_start_eq_take_start` for built hierarchies: the start-up of the give strategy equals the one of the take strategy
+    (with or without FMG, plain or extrapolated, ANY initial memory) — sizes and the admissibility of the extrapolated give smoother
+    derived; only the antipodal symmetry of the angular spacing (across the origin) remains a hypothesis -/
+theorem give_start_eq_take_start_built (H : Hier K) (G : GiveTables) (hG : G.direct = C04g.genTablesGive)
+    (hGe : G.exSmoother = C07g.genTables)
+    (htab : H.tables = C04c.genTables) (nr nt : Nat) (maxLevels : Int) (L : Nat) (crit : Nat → Nat → Bool)
+    (h : chooseLevels nr nt maxLevels = .ok L) (hb : BuiltBy H nr nt crit L)
+    (hk : ∀ l, l < L → (lvl H l).op.bc = false → ∀ j, j < (lvl H l).op.nt → (lvl H l).op.k (ja (lvl H l).op j) = (lvl H l).op.k j)
+    (fmg : Bool) (fk : Kind) (fi nu1 nu2 : Nat) (ex fgs : Bool) (m : Mem (Option (Array K))) :
+    exec (opsGive H G) (initSolution ⟨L, nu1, nu2⟩ fmg fk fi ex fgs (L - 1)) m (0, Buf.sol) =
+      start H ⟨L, nu1, nu2⟩ fmg fk fi ex fgs m (0, Buf.sol) := by
+  obtain ⟨h2, hs, r5, t4, te, -⟩ := built_sizes H nr nt maxLevels L crit h hb
+  refine C09c.give_start_eq_take_start H G hG htab L fmg fk fi nu1 nu2 ex fgs (fun l hl => ?_) ?_ (fun _ _ _ => ?_) m
+  · obtain ⟨t4, m4, -, c3, c⟩ := hs l hl
+    exact ⟨t4, by omega, by omega, c, hk l (by omega)⟩
+  · exact ⟨by omega, t4, te, hk (L - 1) (by omega)⟩
+  · obtain ⟨t4, m4, o, c3, c⟩ := hs 0 (by omega)
+    exact ⟨hGe ▸ C07g.genTables_good, c3, c, o, t4, by omega, fun _ => m4, hk 0 (by omega)⟩
 
 end AnyField
 
@@ -151,5 +186,20 @@ example (k : Kind) (nu1 nu2 : Nat) (fgs : Bool) (u f : Array ℚ) (hu : u.size =
   rw [hz]
   unfold take takeInterior takeOrigin
   split_ifs <;> simp
+
+/-- the start-up theorems apply: the FMG start-up on `exH` returns a 33 × 64 vector for every memory holding the level right-hand
+    sides, and the give start-up equals the take start-up for EVERY memory -/
+example (fmg : Bool) (fk : Kind) (fi nu1 nu2 : Nat) (ex fgs : Bool) (m : Mem (Option (Array ℚ)))
+    (hrhs : ∀ l, l < 4 → ∃ f, m (l, Buf.rhs) = some f) :
+    (∃ y, start exH ⟨4, nu1, nu2⟩ true fk fi ex fgs m (0, Buf.sol) = some y ∧ y.size = 33 * 64) ∧
+    exec (opsGive exH C10g.genG) (initSolution ⟨4, nu1, nu2⟩ fmg fk fi ex fgs (4 - 1)) m (0, Buf.sol) =
+      start exH ⟨4, nu1, nu2⟩ fmg fk fi ex fgs m (0, Buf.sol) := by
+  obtain ⟨M, hM⟩ := C04c.assemble_in_bounds (exOp 5 8) (by decide)
+  have hl3 : (lvl exH (4 - 1)).op = exOp 5 8 := rfl
+  refine ⟨concrete_start_total_built exH 33 64 (-1) 4 exCrit rfl exH_built fk fi nu1 nu2 ex fgs
+      (fun l hl => (exH_data l hl).1) (by decide +kernel) M (by rw [hl3]; exact hM) (exH_ht M hM) m (fun l hl _ => hrhs l hl),
+    give_start_eq_take_start_built exH C10g.genG rfl rfl rfl 33 64 (-1) 4 exCrit rfl exH_built ?_ fmg fk fi nu1 nu2 ex fgs m⟩
+  intro l hl
+  rcases (by omega : l = 0 ∨ l = 1 ∨ l = 2 ∨ l = 3) with rfl | rfl | rfl | rfl <;> exact fun h => absurd h (by decide)
 
 end C10j
